@@ -5,6 +5,7 @@ import NadaVerif.Generated.ScalarTable
 import NadaVerif.Generated.FoldOps
 import NadaVerif.Spec.C02
 import NadaVerif.Spec.C06
+import NadaVerif.Spec.C03
 import NadaVerif.Driver.ProgJson
 
 namespace NadaVerif.Driver
@@ -66,6 +67,7 @@ def handle (j : Json) : Json :=
       ("cellOK", failingRows C02.cellOK),
       ("eqModel", failingRows fun r => C02.eraseOut r.2.2 = some (C02.modelOut r.1 r.2.1)),
       ("foldedIffLiteral", failingRows C06.foldedIffLiteral)]
+  | .ok "c03cells" => Json.mkObj [("noDeclass", failingRows C03.noDeclass)]
   | .ok "fold" => handleFold j
   | .ok "prog" => handleProg j
   | .ok k => Json.mkObj [("error", Json.str ("unknown request " ++ k))]
